@@ -1,27 +1,128 @@
-(** C30/Corr.v — executable comparison of the real server's quiescent observations with what
-    [published_converge] predicts: a file the analysis holds has "last published = fresh diagnosis",
-    a file the analysis does not hold has an empty (or no) last published set. *)
+(** C30/Corr.v — the MODEL is run on the observed history (a deterministic schedule of C30/Model.v's own
+    steps, proved to be model steps: [sched_sound]) to quiescence; the final analysed text and last published
+    set it predicts per uri are compared with what the real server showed.  By [published_converge] the
+    prediction does not depend on the schedule.  Published sets are abstract: [diag t = Some t] ("the
+    diagnosis of text t"), [empty = None]; the harness reports, per uri, whether the last publishDiagnostics
+    equals a fresh diagnosis of the text the analysis holds. *)
 From Coq Require Import List Arith Bool PeanoNat NArith.
+From EV Require Import C30.Model.
 Import ListNotations.
 
+Definition dsT := option nat.
+Definition diagT (t : text) : dsT := Some t.
+Definition emptyT : dsT := None.
+Notation stT := (st dsT).
+
+(** one step of a fixed schedule: finish the running handler, else start the next notification, else let the
+    first task fire / run (a cancelled task does not publish) *)
+Definition sched_step (s : stT) : option stT :=
+  match mid s with
+  | Some (EEdit u t) =>
+      Some (mkSt (an s) (pub s) (upd (tokens s) u (Some (next s)))
+                 (mkTask (next s) u false false :: cancel_id (tokens s u) (tasks s)) (S (next s)) (queue s) None)
+  | Some (ERemove u) => Some (rm_step2 dsT emptyT true s u)
+  | None =>
+      match queue s with
+      | EEdit u t :: q => Some (mkSt (upd (an s) u (Some t)) (pub s) (tokens s) (tasks s) (next s) q (Some (EEdit u t)))
+      | ERemove u :: q => Some (rm_step1 dsT emptyT true s u q)
+      | [] =>
+          match tasks s with
+          | [] => None
+          | k :: l2 =>
+              if tk_fired k then
+                match an s (tk_uri k), tk_cancelled k with
+                | Some t, false =>
+                    Some (mkSt (an s) (upd (pub s) (tk_uri k) (Some (diagT t))) (upd (tokens s) (tk_uri k) None)
+                               l2 (next s) (queue s) (mid s))
+                | _, _ => Some (mkSt (an s) (pub s) (upd (tokens s) (tk_uri k) None) l2 (next s) (queue s) (mid s))
+                end
+              else Some (mkSt (an s) (pub s) (tokens s) (mkTask (tk_id k) (tk_uri k) (tk_cancelled k) true :: l2)
+                              (next s) (queue s) (mid s))
+          end
+      end
+  end.
+
+Lemma sched_sound : forall s s', sched_step s = Some s' -> step dsT diagT emptyT true s s'.
+Proof.
+  intros s s' H. unfold sched_step in H.
+  destruct (mid s) as [[u t | u]|] eqn:Hmid.
+  - injection H as <-. eapply e_b_edit. exact Hmid.
+  - injection H as <-. exact (e_b_remove dsT diagT emptyT true s u Hmid).
+  - destruct (queue s) as [|[u t | u] q] eqn:Hq.
+    + destruct (tasks s) as [|k l2] eqn:Ht; [discriminate|].
+      destruct (tk_fired k) eqn:Hf.
+      * destruct (an s (tk_uri k)) as [t|] eqn:Ha.
+        -- destruct (tk_cancelled k) eqn:Hc; injection H as <-.
+           ++ pose proof (t_run_skip dsT diagT emptyT true s [] k l2 Ht Hf (or_introl Hc)) as Hx. rewrite Hmid, Hq in Hx. exact Hx.
+           ++ pose proof (t_run_pub dsT diagT emptyT true s [] k l2 t Ht Hf Ha) as Hx. rewrite Hmid, Hq in Hx. exact Hx.
+        -- injection H as <-. pose proof (t_run_skip dsT diagT emptyT true s [] k l2 Ht Hf (or_intror Ha)) as Hx. rewrite Hmid, Hq in Hx. exact Hx.
+      * injection H as <-. pose proof (t_fire dsT diagT emptyT true s [] k l2 Ht Hf) as Hx. rewrite Hmid, Hq in Hx. exact Hx.
+    + injection H as <-. eapply e_a_edit; [exact Hq | exact Hmid].
+    + injection H as <-. exact (e_a_remove dsT diagT emptyT true s u q Hq Hmid).
+Qed.
+
+Fixpoint run_model (fuel : nat) (s : stT) : stT :=
+  match fuel with
+  | 0 => s
+  | S f => match sched_step s with Some s' => run_model f s' | None => s end
+  end.
+
+Lemma run_model_reach : forall fuel s0 s, reach dsT diagT emptyT true s0 s ->
+  reach dsT diagT emptyT true s0 (run_model fuel s).
+Proof.
+  induction fuel as [|f IH]; intros s0 s Hr; cbn [run_model]; [assumption|].
+  destruct (sched_step s) as [s'|] eqn:Hs; [|assumption].
+  apply IH. eapply reachS; [eassumption | apply sched_sound; assumption].
+Qed.
+
+(** what the harness observed for one uri at quiescence *)
 Record obs := {
-  o_known : bool;            (* the analysis holds the file *)
-  o_open_is_current : bool;  (* the analysed text is the editor's latest text (otherwise C27/C29, not C30) *)
-  o_published : option N;  (* number of items of the last publishDiagnostics, None = never published *)
-  o_fresh : option N;      (* number of items of a fresh diagnosis *)
-  o_same : bool              (* last published = fresh diagnosis, item by item *)
+  o_uri : N;
+  o_known : bool;        (* the analysis holds the file *)
+  o_text : N;            (* id of the analysed text (when known) *)
+  o_pub : N;             (* last publishDiagnostics: 0 never, 1 empty, 2 = fresh diagnosis of the analysed text, 3 other *)
+  o_fresh_empty : bool   (* the fresh diagnosis of the analysed text is empty *)
 }.
 
-Definition case := list obs.
+Record case := {
+  c_disk : list N;                       (* uris on disk (text 0), analysed and diagnosed at start-up *)
+  c_events : list (bool * N * N);        (* (true, u, t) analysis text of u becomes t ; (false, u, _) u is removed *)
+  c_obs : list obs
+}.
 
-Definition check_obs (o : obs) : bool :=
-  if o_known o then
-    negb (o_open_is_current o) ||
-    match o_published o with
-    | Some _ => o_same o
-    | None => match o_fresh o with Some 0%N => true | None => true | Some _ => false end
-    end
-  else
-    match o_published o with None => true | Some 0%N => true | Some _ => false end.
+Definition in_disk (l : list N) (u : uri) : bool := existsb (fun x => Nat.eqb (N.to_nat x) u) l.
 
-Definition check_case (c : case) : bool := forallb check_obs c.
+Definition start_of (c : case) : stT :=
+  mkSt (fun u => if in_disk (c_disk c) u then Some 0 else None)
+       (fun u => if in_disk (c_disk c) u then Some (diagT 0) else None)
+       (fun _ => None) [] 0
+       (map (fun e => match e with
+                      | (true, u, t) => EEdit (N.to_nat u) (N.to_nat t)
+                      | (false, u, _) => ERemove (N.to_nat u)
+                      end) (c_events c))
+       None.
+
+Definition quiescentb (s : stT) : bool :=
+  match queue s, mid s, tasks s with [], None, [] => true | _, _, _ => false end.
+
+Definition check_obs (s : stT) (o : obs) : bool :=
+  let u := N.to_nat (o_uri o) in
+  match an s u with
+  | Some t =>
+      o_known o && Nat.eqb (N.to_nat (o_text o)) t
+      && match pub s u with
+         | Some (Some t') => Nat.eqb t' t && (N.eqb (o_pub o) 2 || (N.eqb (o_pub o) 0 && o_fresh_empty o)
+                                              || (N.eqb (o_pub o) 1 && o_fresh_empty o))
+         | _ => false
+         end
+  | None =>
+      negb (o_known o)
+      && match pub s u with
+         | None | Some None => N.eqb (o_pub o) 0 || N.eqb (o_pub o) 1
+         | Some (Some _) => false
+         end
+  end.
+
+Definition check_case (c : case) : bool :=
+  let s := run_model (10 * List.length (c_events c) + 10) (start_of c) in
+  quiescentb s && forallb (check_obs s) (c_obs c).
